@@ -138,3 +138,30 @@ Example C10_nonvacuous_reject :
   decode [0; 0; 0; 0; 16; 0] = (0, Err e_short) /\
   decode (be 4 100 ++ be 2 4097 ++ be 2 0 ++ be 4 1 ++ be 2 1 ++ [0; 0; 0; 0]) = (14, Err e_magic).
 Proof. vm_compute. repeat split. Qed.
+
+(* ---- the checked readers of utils.go and the protocol-id allow-list, for the definitions
+        REGENERATED FROM THE GO SOURCE on every run (Gen/Funcs.v by tools/gotrans from
+        protocol/ttheader/utils.go and decode.go; equivalences in Proofs/GenEquivTTH.v): a change of
+        Bytes2Uint8/16, ReadString2BLen, IsTTHeader, IsStreaming or checkProtocolID changes the
+        generated definition and breaks its equivalence lemma, a proof obligation of this property ---- *)
+From GV Require Import Lib.GoSem Gen.Funcs Proofs.GenLib Proofs.GenCorollariesTTH.
+
+Theorem C10_gen_bytes2uint16 : forall buf off,
+  glen_ok buf -> (Z.of_N off < 2 ^ 63)%Z ->
+  unerr (g_ttheader_Bytes2Uint16 buf (Z.of_N off)) =
+  match drop off buf with a :: b :: _ => Ok (Z.of_N (a * 256 + b)) | _ => Err e_eof end.
+Proof. exact g_b2u16_spec. Qed.
+
+Theorem C10_gen_bytes2uint8 : forall buf off,
+  glen_ok buf -> (Z.of_N off < 2 ^ 63)%Z ->
+  unerr (g_ttheader_Bytes2Uint8 buf (Z.of_N off)) =
+  match drop off buf with [] => Err e_eof | x :: _ => Ok (Z.of_N x) end.
+Proof. exact g_b2u8_spec. Qed.
+
+Theorem C10_gen_read_string_safe : forall buf off,
+  wf buf -> glen_ok buf -> (Z.of_N off < 2 ^ 63)%Z -> safe (g_ttheader_ReadString2BLen buf (Z.of_N off)).
+Proof. exact g_read_str2_safe. Qed.
+
+Theorem C10_gen_check_protocol_id : forall pid,
+  g_ttheader_checkProtocolID (Z.of_N pid) = Ok gnil <-> In (Z.of_N pid) ttheader_checkProtocolID_cases.
+Proof. exact g_check_protocol_id. Qed.
